@@ -383,11 +383,15 @@ fn run_request(s: &mut Session, fc: &Ctx, req: &Req) {
     let out = match res {
         Ok(Ok(b)) => b,
         Ok(Err(e)) => {
-            s.oracle("layout-subset-font-ok", false, inp, || format!("{e:?}"));
+            if fc.oracles {
+                s.oracle("layout-subset-font-ok", false, inp, || format!("{e:?}"));
+            }
             return;
         }
         Err(p) => {
-            s.oracle("layout-subset-font-ok", false, inp, || format!("panic {p}"));
+            if fc.oracles {
+                s.oracle("layout-subset-font-ok", false, inp, || format!("panic {p}"));
+            }
             return;
         }
     };
@@ -587,6 +591,8 @@ enum CaretS {
     F3Dev(i16, Vec<u8>),
     /// coordinate, outer, inner
     F3Var(i16, u16, u16),
+    /// coordinate; the device offset points outside the table
+    F3BadDev(i16),
 }
 
 #[derive(Clone, Debug)]
@@ -662,6 +668,11 @@ fn caret_bytes(c: &CaretS) -> Vec<u8> {
             p16(&mut o, *outer);
             p16(&mut o, *inner);
             p16(&mut o, 0x8000);
+        }
+        CaretS::F3BadDev(v) => {
+            p16(&mut o, 3);
+            p16(&mut o, *v as u16);
+            p16(&mut o, 0xFFF0);
         }
     }
     o
@@ -1093,6 +1104,66 @@ struct SynFont {
     /// every table is well-formed: the preservation oracles apply
     wf: bool,
     n: u16,
+}
+
+/// hand-picked fonts for the outcomes the random generator rarely reaches: serializer errors (`subset_font` fails) and
+/// the 16-bit offset overflow of a large LigCaretList (no repacker: the GDEF table is silently dropped)
+fn syn_special_fonts() -> Vec<SynFont> {
+    let mut out = vec![];
+    // more coverage ranges than the font has glyphs: CoverageFormat2::subset flags a read error
+    {
+        let n = 12u16;
+        let ranges: Vec<(u16, u16, u16)> = (0..13).map(|i| (i % 12, i % 12, i)).collect();
+        let g = GdefS { minor: 2, glyph_class: Some(CdS::F1(1, vec![1, 2, 3])), mark_sets: Some(vec![CovS::F1(vec![2, 3]), CovS::F2(ranges)]), ..Default::default() };
+        let label = "syn:gdef-hard#0".to_string();
+        out.push(SynFont { data: syn_base(&label, n as usize, vec![(*b"GDEF", gdef_bytes(&g))]), label, wf: false, n });
+    }
+    // a caret value format 3 whose device offset points outside the table
+    {
+        let n = 12u16;
+        let g = GdefS { minor: 0, glyph_class: Some(CdS::F1(1, vec![1, 2, 3])), lig: Some((CovS::F1(vec![2, 5]), vec![vec![CaretS::F1(10)], vec![CaretS::F3BadDev(7)]])), ..Default::default() };
+        let label = "syn:gdef-hard#1".to_string();
+        out.push(SynFont { data: syn_base(&label, n as usize, vec![(*b"GDEF", gdef_bytes(&g))]), label, wf: false, n });
+    }
+    // a LigCaretList of 65.7 KB that the SOURCE can express (all LigGlyph and CaretValue tables first, the 262-byte
+    // Device tables behind them, each within 64 KB of its caret value) but the Serializer's layout (every LigGlyph
+    // subtree contiguous, no repacker) cannot: the first LigGlyph ends up more than 65535 bytes from the list
+    {
+        let n = 248usize;
+        let mut l: Vec<u8> = vec![];
+        let hdr = 4 + 2 * n;
+        let lig0 = hdr + 10; // after the coverage table
+        let car0 = lig0 + 4 * n;
+        let dev0 = car0 + 6 * n;
+        p16(&mut l, hdr as u16);
+        p16(&mut l, n as u16);
+        for i in 0..n {
+            p16(&mut l, (lig0 + 4 * i) as u16);
+        }
+        l.extend_from_slice(&cov_bytes(&CovS::F2(vec![(0, n as u16 - 1, 0)])));
+        for i in 0..n {
+            p16(&mut l, 1);
+            p16(&mut l, ((car0 + 6 * i) - (lig0 + 4 * i)) as u16);
+        }
+        for i in 0..n {
+            p16(&mut l, 3);
+            p16(&mut l, i as u16);
+            p16(&mut l, ((dev0 + 262 * i) - (car0 + 6 * i)) as u16);
+        }
+        for i in 0..n {
+            p16(&mut l, 0);
+            p16(&mut l, 255);
+            p16(&mut l, 3);
+            for w in 0..128u16 {
+                p16(&mut l, if w == 0 { i as u16 } else { w });
+            }
+        }
+        let mut gdef = vec![0, 1, 0, 0, 0, 0, 0, 0, 0, 12, 0, 0];
+        gdef.extend_from_slice(&l);
+        let label = "syn:gdef-big#0".to_string();
+        out.push(SynFont { data: syn_base(&label, n, vec![(*b"GDEF", gdef)]), label, wf: true, n: n as u16 });
+    }
+    out
 }
 
 fn syn_gdef_font(r: &mut Rng, id: u64) -> SynFont {
@@ -2422,6 +2493,13 @@ pub fn run(cfg: &Config, s: &mut Session, r: &mut Rng) {
             run_request(s, &fc, &req);
         }
         run_request(s, &fc, &Req { gids: (0..sf.n as u32).collect(), unicodes: vec![], flags: 0 });
+    }
+    for sf in syn_special_fonts() {
+        let Ok(font) = FontRef::new(&sf.data) else { continue };
+        let fc = Ctx { label: sf.label.clone(), font, corr: true, oracles: sf.wf, seen: &seen };
+        run_request(s, &fc, &Req { gids: (0..sf.n as u32).collect(), unicodes: vec![], flags: 0 });
+        run_request(s, &fc, &Req { gids: (0..sf.n as u32).collect(), unicodes: vec![], flags: F_RETAIN_GIDS });
+        run_request(s, &fc, &Req { gids: vec![1, 2, 3, 5], unicodes: vec![], flags: 0 });
     }
     for id in 0..(if th { 200 } else { 30 }) {
         let sf = syn_layout_font(r, id);
